@@ -155,6 +155,7 @@ ssize_t _GD_Bzip2Read(struct gd_raw_file_ *restrict file, void *restrict data,
     ptr->pos = ptr->end;
 
     if (ptr->stream_end) {
+      file->pos = (ptr->base + ptr->pos) / GD_SIZE(data_type);
       dreturn("%li", (long)(nmemb - nbytes / GD_SIZE(data_type)));
       return nmemb - nbytes / GD_SIZE(data_type);
     }
